@@ -119,8 +119,7 @@ func (p *MultilineAction) Do(event *pipeline.Event) pipeline.ActionResult {
 	predictedLen := p.eventSize + predictionLookahead
 	shouldSplit := predictedLen > p.config.SplitEventSize
 	logFragmentLen := len(logFragment)
-	// the shortest fragment ending with an escaped new line is `"\n"`: an empty log (`""`) is not an end
-	isEnd := logFragmentLen >= 4 && logFragment[logFragmentLen-3:logFragmentLen-1] == newLine
+	isEnd := endsWithNewLine(logFragment)
 	if !isEnd && !shouldSplit {
 		sizeAfterAppend := len(p.eventBuf) + len(logFragment)
 		// check buffer size before append
@@ -227,6 +226,21 @@ func (p *MultilineAction) Do(event *pipeline.Event) pipeline.ActionResult {
 	p.resetLogBuf()
 
 	return pipeline.ActionPass
+}
+
+// endsWithNewLine reports whether a quoted escaped string ends with an escaped new line (`\n"`).
+// The backslash must not be escaped itself: `\\n"` is a backslash followed by the letter n, not an end of line.
+func endsWithNewLine(s string) bool {
+	l := len(s)
+	// the shortest fragment ending with an escaped new line is `"\n"`: an empty log (`""`) is not an end
+	if l < 4 || s[l-2] != 'n' {
+		return false
+	}
+	slashes := 0
+	for i := l - 3; i > 0 && s[i] == '\\'; i-- {
+		slashes++
+	}
+	return slashes%2 == 1
 }
 
 func (p *MultilineAction) resetLogBuf() {
